@@ -342,22 +342,27 @@ func (t *Tokenizer) tokenizeBuffer(buf []byte, last bool) error {
 				t.mode = dotMap
 				continue
 			}
-			for i, b = range buf[off+1:] {
-				if digitMap[b] != numDigit {
-					break
+			t.mode = dotMap
+			if off+1 < len(buf) {
+				for i, b = range buf[off+1:] {
+					if digitMap[b] != numDigit {
+						break
+					}
+					t.num.Frac = t.num.Frac*10 + uint64(b-'0')
+					t.num.Div *= 10.0
+					if math.MaxInt64 < t.num.Frac {
+						t.num.FillBig()
+						break
+					}
 				}
-				t.num.Frac = t.num.Frac*10 + uint64(b-'0')
-				t.num.Div *= 10.0
-				if math.MaxInt64 < t.num.Frac {
-					t.num.FillBig()
-					break
+				off += i
+				if digitMap[b] == numDigit {
+					off++
+					t.mode = fracMap
+				} else if 0 < i {
+					t.mode = fracMap
 				}
 			}
-			off += i
-			if digitMap[b] == numDigit {
-				off++
-			}
-			t.mode = fracMap
 		case numFrac:
 			t.num.AddFrac(b)
 			t.mode = fracMap
